@@ -61,6 +61,12 @@ CHECKS.update({
          "Receiver mutation by OptimizeTable is documented and not judged; sequentially consistent statement-level interleaving; one open known finding (GetCodonTable shares storage), see known_findings.json.", "§5 C08"),
 })
 
+CHECKS.update({
+ "C18": ("bounded exhaustive enumeration of pairs of re-weighted tables x cut-offs against the statement's formula; Optimize on the compromise under every answer of the random source",
+         "The computation is per amino acid, so for amino acids with 2, 3, 4 (6 thorough) synonyms ALL ordered pairs of count vectors over small value sets are realised as tables (OptimizeTable on synthetic coding sequences), over genetic codes 1, 2, 11 (all 25 thorough); AddCodonTable must give the sum for all 64 codons; CompromiseCodonTable is evaluated at cut-offs {-1,-1e-9,-5e-5,0,every realised share and +-1e-6,0.1,0.5,1,1+1e-9,1.00005,2}: error iff outside [0,1], per-codon rule within +-1, symmetry, assignment and start/stop codons preserved; Optimize on compromise tables is run under every answer of the draw and must never emit a codon below the cut-off in either table.",
+         "Shares within 1e-4 of the cut-off accepted either way; value sets bounded as listed in evidence.bounds.", "§5 C18"),
+})
+
 NOT_YET = {}
 
 props = [json.loads(l) for l in open('/verif/properties.jsonl')]
